@@ -87,11 +87,13 @@ def lint_function(m: Model, f: FuncInfo) -> list[tuple[int, str]]:
                 and isinstance(st.test.comparators[0], ast.Constant) and st.test.comparators[0].value is None and isinstance(st.test.left, (ast.Name, ast.Attribute)):
             x = ast.unparse(st.test.left)
             for later in body[i + 1:]:
-                if any(isinstance(t, (ast.Assign, ast.AnnAssign)) and ast.unparse(t.targets[0] if isinstance(t, ast.Assign) else t.target) == x for t in ast.walk(later)):
-                    break
-                if any(isinstance(n_, ast.Attribute) and ast.unparse(n_.value) == x for n_ in ast.walk(later)):
-                    out.append((st.lineno, f"`{ast.unparse(st)[:60]}` asserts that {x} is None, and line {later.lineno} dereferences it: one of the two is wrong "
+                rebind = [t.lineno for t in ast.walk(later) if isinstance(t, (ast.Assign, ast.AnnAssign)) and ast.unparse(t.targets[0] if isinstance(t, ast.Assign) else t.target) == x]
+                deref = [n_.lineno for n_ in ast.walk(later) if isinstance(n_, ast.Attribute) and ast.unparse(n_.value) == x]
+                if deref and (not rebind or min(deref) < min(rebind)):
+                    out.append((st.lineno, f"`{ast.unparse(st)[:60]}` asserts that {x} is None, and line {min(deref)} dereferences it: one of the two is wrong "
                                            "(the assertion fails on every call, or the dereference raises)"))
+                    break
+                if rebind:
                     break
     for n in walk_no_nested(f.node):
         if not isinstance(n, ast.Call):
